@@ -31,9 +31,8 @@ func init() { register("C33", c33{}) }
 func (c33) Parallel() bool { return false }
 
 const (
-	c33API     = "s3.localhost"
-	c33Web     = "s3-website.localhost"
-	c33Finding = "C33-vhost-trailing-slash-key"
+	c33API = "s3.localhost"
+	c33Web = "s3-website.localhost"
 )
 
 type c33Call struct {
@@ -279,7 +278,7 @@ func (c33) Run(in string, scratch string) Result {
 			oracle = "FAIL:virtual-hosted request is treated as [" + obs.out + "], its path-style twin " + twin + " as [" + t.out + "]"
 		}
 		if strings.HasSuffix(path, "/") && path != "/" {
-			tags = append(tags, "trailing-slash", "kf:"+c33Finding)
+			tags = append(tags, "trailing-slash") // the region of the former defect (fixed by /repo 18a80a7)
 		}
 	case isAPI:
 		tags = append(tags, "path-style")
